@@ -1449,4 +1449,5 @@ func TestC16(t *testing.T) {
 	vh.Drive(t, vh.Spec[Case]{Name: "octree", Quick: 400000, Thorough: 12000000, Gen: genCase, Run: runCase})
 	vh.Drive(t, vh.Spec[Case]{Name: "octree-large", Quick: 160, Thorough: 6000, Gen: genLargeCase, Run: runCase})
 	vh.Drive(t, vh.Spec[BVHCase]{Name: "bvh", Quick: 120000, Thorough: 3600000, Gen: genBVH, Run: runBVH})
+	vh.Drive(t, vh.Spec[SphereCase]{Name: "bvh-spheres", Quick: 60000, Thorough: 1800000, Gen: genSpheres, Run: runSpheres})
 }
